@@ -113,7 +113,7 @@ static void run_c01(uint64_t c) {
 static void run_narrow(uint64_t c) {
     vf::Rng     r(vf::g_seed, c);
     std::string t = tg::narrow(r, c);
-    if (vf::want_sample()) vf::sample("narrow-field family %u, %zu units: %s...", unsigned(c % 10), t.size(), t.substr(0, 60).c_str());
+    if (vf::want_sample()) vf::sample("narrow-field family %u, %zu units: %s...", unsigned(c % 12), t.size(), t.substr(0, 60).c_str());
     render_one(t, g_pool->v[0], 0, false, false);
     render_one(t, g_pool->v[0], 1, false, false);
     render_one(t, pick_value(r), 0, true, false);
